@@ -75,7 +75,8 @@ def make_program(job, eng, with_fail=True):
             raise PathAbort()
     conn = (None, "close", "keep-alive")[eng.choose(3, "conn")]
     second = bool(eng.choose(2, "second"))
-    return dict(mode=job["mode"], status=STATUSES[job["st"]], pieces=pieces, cl=cl, fail=fail, ver=job["ver"], method=job["method"],
+    skipn = eng.choose(2, "fileoffset") if job["mode"] in ("file", "file_noseek") and sum(len(p) for p in pieces) > 1 else 0
+    return dict(fileoffset=skipn, mode=job["mode"], status=STATUSES[job["st"]], pieces=pieces, cl=cl, fail=fail, ver=job["ver"], method=job["method"],
                 conn=conn, second=second)
 
 
@@ -151,12 +152,15 @@ class ProgramApp:
                     raise self.exc_class("boom after the first write")
             return CloseableList([], self)
         data = b"".join(p["pieces"])
-        self.produced = [data]
+        off = p.get("fileoffset", 0)
+        self.produced = [data[off:]]
         start_response(p["status"], hdrs)
         if mode == "file":
             f = _make_file(self.ns, data)
+            f.seek(off)  # the application hands over a file that is already positioned (e.g. after reading a header)
         else:
             f = NoSeekFile(data)
+            f.read(off)
         self.file = f
         return environ["wsgi.file_wrapper"](f, 2)
 
@@ -243,7 +247,7 @@ def oracle(inp, obs):
     out = [("no exception escapes", obs["exc"] is None)]
     methods = [p["method"], "GET"]
     resps = [r for r in http_resp.read_responses(obs["wire"], methods) if not r.get("interim")]
-    produced = b"".join(p["pieces"])
+    produced = b"".join(p["pieces"])[p.get("fileoffset", 0):]
     failed_before = p["fail"] == "before"
     failed_after = p["fail"] == "after_first"
     if not resps:
